@@ -26,7 +26,8 @@ def run(prog, chk):
         "glyph geometry is not rounded inside the pre-processing filters or the decomposition helper: coordinates are rounded once, when written (R01.6)",
     ]
     chk.decided += ["components are only resolved into contours by util.decomposeCompositeGlyph; no other decomposing pen / component removal outside reviewed functions (R01.7, shared with C15)",
-                    "the outline compilers generate a glyph only for a name the glyph set lacks: a source glyph is never replaced by a generated one (R01.8, shared with C02)"]
+                    "the outline compilers generate a glyph only for a name the glyph set lacks: a source glyph is never replaced by a generated one (R01.8, shared with C02)",
+                    "a glyph's width / height is only assigned at the reviewed sites: the compiled advance is the source glyph's own (R01.9)"]
     chk.not_decided += ["that drawn coordinates equal the source (fontTools pens)", "composition of nested transforms", "semantics of roundTolerance inside T2CharStringPen"]
     chk.guard(r011, prog, chk)
     chk.guard(r012, prog, chk, "R01.2")
@@ -37,6 +38,7 @@ def run(prog, chk):
     from .c15 import check_single_decomposer
     chk.guard(check_single_decomposer, prog, chk, "R01.7")
     chk.guard(check_only_missing_glyphs_added, prog, chk, "R01.8")
+    chk.guard(r019, prog, chk)
 
 
 # ----------------------------------------------------------------------------- R01.1
@@ -106,9 +108,11 @@ def r012(prog, chk, rule):
     sig = external_init_signature("fontTools.pens.filterPen", "DecomposingFilterPointPen")
     for c in pens:
         kw = A.kwarg(c, "reverseFlipped")
-        ok = kw is not None and isinstance(kw, ast.Name) and kw.id == "reverseFlipped" and "reverseFlipped" in sig
+        ok = kw is not None and isinstance(kw, ast.Name) and kw.id == "reverseFlipped" and "reverseFlipped" in sig \
+            and all(d_.kind == "param" for d_ in prog.reaching(d, kw.id, kw))
         chk.ob(rule, "decomposeCompositeGlyph forwards reverseFlipped to the pen", ok, where(d, c), detail=f"pen signature has reverseFlipped: {'reverseFlipped' in sig}",
-               message="reverseFlipped is not forwarded to the decomposing pen")
+               message="reverseFlipped is not forwarded to the decomposing pen as the caller gave it (the pen applies it at every nesting level; a value recomputed from the glyph's own components "
+                       "loses the reversal of mirrored components further down)")
         for nm in ("include", "decomposeNested"):
             kw = A.kwarg(c, nm)
             okk = kw is not None and isinstance(kw, ast.Name) and kw.id == nm
@@ -311,7 +315,48 @@ def check_only_missing_glyphs_added(prog, chk, rule):
     chk.minimum(rule, 2)
 
 
+
+# ----------------------------------------------------------------------------- R01.9
+ADVANCE_WRITERS = {
+    "_copyGlyph": "the working copy takes the source glyph's own width / height",
+    "TransformationsFilter.filter": "an explicitly requested transformation maps the advance as a vector (C15)",
+    "swap_glyph_names": "instantiator rule swaps exchange whole glyphs, advances included (C19)",
+    "StubGlyph.__init__": "the generated .notdef",
+    "_notdefGlyphFallback": "placeholder .notdef of sparse variable-font masters (0xFFFF sentinel)",
+}
+
+
+def r019(prog, chk):
+    """The advance a glyph is compiled with is the advance of the source glyph it is compiled from: outside the reviewed
+    sites nothing in the package assigns a glyph's width / height (no filling in from another layer, no defaulting)."""
+    ix = prog.ix
+    n = 0
+    for fi in ix.functions.values():
+        if isinstance(fi.node, ast.Lambda):
+            continue
+        for attr in ("width", "height"):
+            for st, t, v in attr_stores(fi, attr):
+                if isinstance(t.value, ast.Name) and t.value.id == "self" and fi.short not in ADVANCE_WRITERS:
+                    # a class's own attribute of that name (pens, namespaces): not a glyph
+                    if fi.cls is not None and not any("Glyph" in c_.name for c_ in ix.mro(fi.cls)):
+                        continue
+                n += 1
+                ok = fi.short in ADVANCE_WRITERS
+                if ok:
+                    chk.exempt("R01.9", f"{fi.short}|{attr}", ADVANCE_WRITERS[fi.short])
+                chk.ob("R01.9", f"{fi.short}|{A.keytext(fi.node, st)}|advances are only written at the reviewed sites", ok, where(fi, st), detail=ADVANCE_WRITERS.get(fi.short, T(st, 60)),
+                       message=f"{fi.short}: `{T(st, 60)}` assigns a glyph's {attr}: the compiled advance is then no longer the source glyph's own (not one of the reviewed sites "
+                               f"{sorted(ADVANCE_WRITERS)})")
+    need(n >= 6, "advance stores not found")
+    chk.minimum("R01.9", 6)
+
+
 MUTANTS = [
+    M("zero-width layer glyphs take the default layer's advance (seeded C01h)", "ufo2ft/util.py", "_GlyphSet.from_layer",
+      "return self", "for glyphName, glyph in self.items():\n    if glyphName in font and not glyph.width:\n        glyph.width = font[glyphName].width\nreturn self", rule="R01.9"),
+    M("reversal switched off unless a top-level component is mirrored (seeded C15g)", "ufo2ft/util.py", "decomposeCompositeGlyph",
+      "pen = DecomposingFilterPointPen(glyph.getPointPen(), glyphSet, reverseFlipped=reverseFlipped, include=include, decomposeNested=decomposeNested)",
+      "if reverseFlipped:\n    reverseFlipped = any(c.transformation[0] < 0 for c in glyph.components)\npen = DecomposingFilterPointPen(glyph.getPointPen(), glyphSet, reverseFlipped=reverseFlipped, include=include, decomposeNested=decomposeNested)", rule="R01.2"),
     M("blank .notdef of the source replaced by the generated one (seeded C01e)", "ufo2ft/outlineCompiler.py", "BaseOutlineCompiler.makeMissingRequiredGlyphs",
       "'.notdef' in glyphSet", "'.notdef' in glyphSet and (len(glyphSet['.notdef']) or glyphSet['.notdef'].width)", rule="R01.8"),
     M("component offsets snapped to the grid before decomposition (seeded C01c)", "ufo2ft/filters/decomposeComponents.py", "DecomposeComponentsFilter.filter",
